@@ -60,6 +60,15 @@ def run(ctx):
                 ctx.fail("correspondence", f"_chunked_adv_rhs on a {name}-ordered block (RADIAL_DYNAMICS={rd_on}) differs from column-wise _adv_rhs",
                          inp={"op": "chunked", "layout": name, "radial_dynamics": rd_on})
     ctx.sample({"op": "chunked_adv_rhs", "targets": tdesc, "options": okw, "block_shape": list(Y.shape)})
+    # two settings of the radial solver's controls used alternately in one process: each call follows its own model
+    import advcorr
+    oa, _ = gens.make_options(None, bits=[True] * 12, RADIAL_DYNAMICS=True, RADIAL_SOLVER_REL_DIFF=1e-1, RADIAL_SOLVER_MAX_STEPS=2)
+    ob, _ = gens.make_options(None, bits=[True] * 12, RADIAL_DYNAMICS=True, RADIAL_SOLVER_REL_DIFF=1e-9, RADIAL_SOLVER_MAX_STEPS=500)
+    ma, mb = AdvancedModel.get(dev, tg, bg, oa), AdvancedModel.get(dev, tg, bg, ob)
+    ya = advcorr.compensated_state(rng, ma, frac=0.3)
+    for mm, nm in ((ma, "loose"), (mb, "tight"), (ma, "loose"), (mb, "tight")):
+        advcorr.compare_rhs(ctx, mm, [ya], {"op": "solver_controls", "setting": nm, "device": dkw, "targets": tdesc})
+        ctx.seen(("controls", nm))
 
 
 SNIPPET = r'''
@@ -136,17 +145,18 @@ def search(ctx):
     if digest(first.N, first.t) != digest(again.N, again.t):
         V.append({"key": {"clause": "repeat_basic"}, "what": "repeating basic_simulation with equal inputs gives different numbers", "input": {"op": "repeat_basic"}})
     ctx.cov["thread_counts"] = threads
+    # energy scan: process pool vs sequential, energies given out of order
+    kw = dict(element="Ar", j=80., t_max=0.02, dr_fwhm=None, solver_kwargs={"rtol": 1e-6})
+    es = [3000., 500., 8000., 1200.] if ctx.thorough else [3000., 500., 1200.]
+    a = energy_scan(ebisim.basic_simulation, dict(kw), es, parallel=False)
+    b = energy_scan(ebisim.basic_simulation, dict(kw), list(es), parallel=True)
+    for i, e in enumerate(sorted(es)):
+        ra, rb = a.get_result(e), b.get_result(e)
+        if digest(ra.N, ra.t) != digest(rb.N, rb.t) or digest(a._results[i].N, a._results[i].t) != digest(b._results[i].N, b._results[i].t):
+            V.append({"key": {"clause": "energy_scan_parallel"}, "what": f"energy_scan parallel and sequential results differ at {e} eV", "input": {"op": "escan", "e": e}})
+            break
+    ctx.evaluations += 2
     if ctx.thorough:
-        # energy scan: process pool vs sequential
-        kw = dict(element="Ar", j=80., t_max=0.02, dr_fwhm=None, solver_kwargs={"rtol": 1e-6})
-        es = [3000., 500., 8000., 1200.]
-        a = energy_scan(ebisim.basic_simulation, dict(kw), es, parallel=False)
-        b = energy_scan(ebisim.basic_simulation, dict(kw), es, parallel=True)
-        for e in sorted(es):
-            ra, rb = a.get_result(e), b.get_result(e)
-            if digest(ra.N, ra.t) != digest(rb.N, rb.t):
-                V.append({"key": {"clause": "energy_scan_parallel"}, "what": f"energy_scan parallel and sequential results differ at {e} eV", "input": {"op": "escan", "e": e}})
-        ctx.evaluations += 2
         # fresh processes (warm cache, then a cold cache)
         outs = []
         for cold in (False, True):
@@ -167,7 +177,41 @@ def search(ctx):
             h3 = advanced_simulation(d, tg, t_max=1e-3, n_threads=3, verbose=False)
             if outs[0].split()[1] != digest(res_of(h3).y, res_of(h3).t):
                 V.append({"key": {"clause": "repeat_fresh_process"}, "what": "a fresh process gives numbers different from this process", "input": {"op": "fresh"}})
+    if ctx.thorough or any((f.get("input") or {}).get("op") == "solver_controls" for f in ctx.failures):
+        # two simulations that differ only in the radial solver's controls, in opposite orders, in two fresh processes with
+        # private cold JIT caches: each simulation must give the same numbers whatever ran (and was compiled) before it
+        import shutil
+        outs = {}
+        for order in ("AB", "BA"):
+            cache = os.path.join(common.CACHE, "numba_order_" + order)
+            shutil.rmtree(cache, ignore_errors=True)
+            code = SNIPPET_ORDER % {"cache": cache, "order": order}
+            rc, out, dt = common.run([sys.executable, "-c", code], timeout=2400, env=dict(os.environ))
+            outs[order] = dict(l.split()[1:3] for l in out.split("\n") if l.startswith("HASH")) or {"error": f"rc={rc} {out[-200:]}"}
+            shutil.rmtree(cache, ignore_errors=True)
+            ctx.evaluations += 1
+        ctx.cov["order_hashes"] = outs
+        if outs["AB"] != outs["BA"] or "error" in outs["AB"]:
+            V.append({"key": {"clause": "repeat_any_order"}, "input": {"op": "order"},
+                      "what": f"two advanced simulations (radial solver controls loose / tight) give different numbers depending on which of them a fresh process runs first: {outs}"})
     return V
+
+
+SNIPPET_ORDER = r'''
+import sys, os, hashlib
+os.environ['NUMBA_CACHE_DIR'] = %(cache)r
+sys.path.insert(0, '/repo')
+import numpy as np, ebisim
+from ebisim.simulation import Device, advanced_simulation, ModelOptions
+d = Device.get(current=0.3, e_kin=4000., r_e=1e-4, v_ax=150., b_ax=2., r_dt=5e-3, length=0.8, n_grid=60)
+def sim(tag):
+    o = ModelOptions(RADIAL_DYNAMICS=True, RADIAL_SOLVER_REL_DIFF=1e-1 if tag == "A" else 1e-9, RADIAL_SOLVER_MAX_STEPS=2 if tag == "A" else 500)
+    t = [ebisim.Element.get_ions("Ar", 2e9, 40.0, 8)]
+    r = advanced_simulation(d, t, t_max=2e-5, options=o, verbose=False)
+    print("HASH", tag, hashlib.sha256(np.ascontiguousarray(r.res.y).tobytes() + np.ascontiguousarray(r.res.t).tobytes()).hexdigest())
+for tag in %(order)r:
+    sim(tag)
+'''
 
 ALWAYS_SEARCH = True
 
